@@ -6,6 +6,7 @@ package main
 import (
 	"encoding/json"
 	"net/netip"
+	"strings"
 
 	"github.com/AdguardTeam/golibs/netutil"
 
@@ -187,6 +188,29 @@ func main() {
 			gen.WrapPort(s, func(w string) { other("ipport-wrappings", ipPortPair, w) })
 			gen.WrapPort(s+"%z", func(w string) { other("ipport-wrappings", ipPortPair, w) })
 		})
+
+		// (c') the same shapes with full-width fields (up to 45 bytes), and
+		// octets / ports around the word sizes.
+		gen.WideIPCandidates(1, sh(), func(s string) {
+			other("ip-wide-shapes", ipPair, s)
+			other("ip-wide-shapes", ipPortPair, "["+s+"]:65535")
+			other("ip-wide-shapes", ipPortPair, s+":65535")
+		})
+
+		shb := sh()
+		for _, big := range gen.BigDecimals {
+			for pos := 0; pos < 4; pos++ {
+				oct := []string{"1", "2", "3", "4"}
+				oct[pos] = big
+				v4 := strings.Join(oct, ".")
+				for _, cand := range []string{v4, "::ffff:" + v4, "1:2:3:4:5:6:" + v4, v4 + ":80", "1.2.3.4:" + big, "[::1]:" + big, "[::" + big + "]:80", big + "::1"} {
+					if shb.Mine() {
+						other("ip-big-numbers", ipPair, cand)
+						other("ip-big-numbers", ipPortPair, cand)
+					}
+				}
+			}
+		}
 
 		// (d) hostname twins over the name input space.
 		enum.Strings(gen.NameAlphabet, runlib.Pick(c, 4, 5), sh(), func(s string) {
